@@ -206,8 +206,17 @@ func TestC03Session(t *testing.T) {
 			defer p.Finish(nil)
 			setPairLinks(s, p, fs)
 			maxWrite := 0
-			for _, n := range app[0].Writes {
-				maxWrite = max(maxWrite, (n+p.MSS[0]-1)/p.MSS[0])
+			for i, n := range app[0].Writes {
+				// every buffer of a vectored write is cut into segments on its own
+				sizes := app[0].VecCuts(i, n)
+				if sizes == nil {
+					sizes = []int{n}
+				}
+				segs := 0
+				for _, sz := range sizes {
+					segs += (sz + p.MSS[0] - 1) / p.MSS[0]
+				}
+				maxWrite = max(maxWrite, segs)
 			}
 			s.OnSent = func(d *sim.Sent, from, to string, f *sim.Fate) error {
 				e := 0
